@@ -369,7 +369,11 @@ func (g *gen) block(d int) string {
 	case 0:
 		return "($x := " + g.operand(d) + "; $x)"
 	case 1:
-		return "($x := 1; ($x := 2; $x); $x)"
+		// an assignment is an expression: nested in a conditional branch, an array, a call argument, an object
+		// value, a block of one expression, a function body
+		asg := "$x := " + g.operand(0)
+		w := []string{"true ? " + asg + " : 0", "[" + asg + "]", "$string(" + asg + ")", `{"k": ` + asg + "}", "(" + asg + ")", "function(){" + asg + "}()", asg}[g.r.Intn(7)]
+		return []string{"($x := 1; (" + w + "); $x)", "($x := 1; " + w + "; $x)", "[(" + w + "), $x]", "($x := 1; ($x := 2; $x); $x)"}[g.r.Intn(4)]
 	case 2:
 		return "($f := function($n){$n <= 1 ? 1 : $n * $f($n - 1)}; $f(4))"
 	case 3:
@@ -798,7 +802,7 @@ func genMain(args []string) {
 	}
 	for i := 0; i < *n; i++ {
 		if *prof == "numops" {
-			ops := []string{"+", "-", "*", "/", "%", "%", "<", "<=", ">", ">=", "=", "!="}
+			ops := []string{"+", "-", "*", "/", "%", "%", "<", "<=", ">", ">=", "=", "!=", "&"}
 			x, y := g.numX(), g.numX()
 			switch g.r.Intn(4) {
 			case 0:
